@@ -26,7 +26,7 @@ VDict(kvs) == Val("dict", 0, "", <<>>, kvs)
 
 (* characters chosen to break naive quoting: quote, double quote, backslash, newline, bracket, *)
 (* operator, comment sign, a letter and a non-ASCII letter                                     *)
-Alphabet == {"'", "\"", "\\", "\n", "a", "(", "+", "#", "é"}
+Alphabet == {"'", "\"", "\\", "\n", "a", "(", "+", "#", "é", "𝜇"}      \* the last one is outside the BMP (U+1D707)
 
 (* the comparison form: strings compared by their join only *)
 RECURSIVE Norm(_)
